@@ -73,6 +73,7 @@ int32_t psDhGenSharedSecret(psPool_t *pool,
     }
     if ((err = pstm_init_for_read_unsigned_bin(pool, &p, pBinLen)) != PS_SUCCESS)
     {
+        pstm_clear(&tmp);
         return err;
     }
 
